@@ -438,6 +438,7 @@ def run(ctx, args):
     ctx.cov["distribution"]["trees"] = len(docs)
 
     css(ctx, keep[:12] if quick else keep[:60])
+    css_model(ctx)
     order_search(ctx, keep if quick else keep[:80])
     for f in ctx.findings:
         if f["status"] == "fixed":
@@ -523,6 +524,86 @@ def safe_str(node):
         return "<unserialisable: %s>" % type(ex).__name__
 
 
+def gen_css(rng):
+    """a selector group of the forms XPath/Css.v models -> (selector string, Gallina term of type Css.group)"""
+    from common import cstr
+
+    def opt(x):
+        return "None" if x is None else "(Some %s)" % cstr(x)
+
+    def cond(depth=0):
+        q = rng.random()
+        k = rng.choice(["k", "j", "id"])
+        v = rng.choice(["1", "x", "2"])
+        if q < .25:
+            p = "p" if rng.random() < .2 else None
+            return "[%s%s]" % ("p|" if p else "", k), "(CHas %s %s)" % (opt(p), cstr(k))
+        if q < .45:
+            return '[%s="%s"]' % (k, v), "(CEq %s %s)" % (cstr(k), cstr(v))
+        if q < .55:
+            return '[%s^="%s"]' % (k, v), "(CPrefix %s %s)" % (cstr(k), cstr(v))
+        if q < .65:
+            return '[%s*="%s"]' % (k, v), "(CSub %s %s)" % (cstr(k), cstr(v))
+        if q < .75:
+            return '[%s!="%s"]' % (k, v), "(CNe %s %s)" % (cstr(k), cstr(v))
+        if q < .85:
+            return "#%s" % v, "(CId %s)" % cstr(v)
+        if depth == 0:
+            a, b = cond(1)
+            if not a.startswith("#"):
+                return ":not(%s)" % a, "(CNot %s)" % b
+        return "[%s]" % k, "(CHas None %s)" % cstr(k)
+
+    def simple():
+        pre = "p" if rng.random() < .15 else None
+        name = rng.choice(["a", "b", "c", None, "a"])
+        conds = [cond() for _ in range(rng.choice([0, 0, 1, 1, 2, 3]))]
+        if name is None and pre is None and conds and rng.random() < .5:
+            text = ""                      # `[k]` alone: cssselect reads it as *[k]
+        else:
+            text = ("%s|" % pre if pre else "") + (name or "*")
+        text += "".join(c[0] for c in conds)
+        term = "{| s_prefix := %s; s_name := %s; s_conds := %s |}" % (opt(pre), opt(name), common.clist(c[1] for c in conds))
+        return text, term
+
+    def selector():
+        t0, c0 = simple()
+        text, rest = t0, []
+        for _ in range(rng.choice([0, 0, 1, 1, 2])):
+            comb = rng.choice([(" ", "Descendant"), (" > ", "Child"), (" ~ ", "Sibling")])
+            t, c = simple()
+            if not t or t[0] in "[#:":
+                t = "*" + t
+            text += comb[0] + t
+            rest.append("(%s, %s)" % (comb[1], c))
+        if not text or text[0] in "[#:":
+            pass
+        return text, "(%s, %s)" % (c0, common.clist(rest))
+    sels = [selector() for _ in range(rng.choice([1, 1, 1, 2]))]
+    return ", ".join(x[0] for x in sels), common.clist(x[1] for x in sels)
+
+
+def css_model(ctx):
+    """the model of the translation scheme (XPath/Css.v, theorems C06_css_*) against the real _css_to_xpath + parser"""
+    from _delb.xpath import _css_to_xpath, parse
+    terms, meta = [], []
+    for _ in range(150 if ctx.tier == "quick" else 1500):
+        sel, term = gen_css(ctx.rng)
+        try:
+            enc = xpath_ast.enc_ast(parse(_css_to_xpath(sel)))
+        except Exception as ex:     # noqa: BLE001
+            ctx.mismatch("Css.css_ast vs _css_to_xpath (the real translation or parser refuses a modelled form)",
+                         json.dumps({"selector": sel, "error": type(ex).__name__}))
+            continue
+        terms.append("run_css_ast %s" % term)
+        meta.append((sel, enc))
+    res = xq.coq_eval_retry(ctx, "c06_cssast", xq.REQ + "From Delb.XPath Require Import Css.\n", terms, chunk=150)
+    for (sel, enc), got in zip(meta, res):
+        ctx.count(1, "css:model-vs-translator")
+        if got != enc:
+            ctx.mismatch("Css.css_ast vs _css_to_xpath", json.dumps({"selector": sel, "xpath": _css_to_xpath(sel)}))
+
+
 def css(ctx, docs):
     from cssselect import GenericTranslator
     from _delb.xpath import _css_to_xpath, parse
@@ -538,9 +619,11 @@ def css(ctx, docs):
             r = rng.random()
             if r < .3:
                 sel = sel + rng.choice([" ", " > ", " ~ ", ", "]) + rng.choice(CSS_ATOMS)
+            elif r < .6:
+                sel = gen_css(rng)[0]
             pos, node = rng.choice(tags)
             um = rng.choice([{"p": P_NS}, {"p": P_NS}, {}, None])
-            if um is not None and "p" not in um and "p|" in sel:
+            if (um is None or "p" not in um) and "p|" in sel:
                 um = {"p": P_NS}
             try:
                 xp = _css_to_xpath(sel)
